@@ -144,6 +144,9 @@ def r14(ctx, prog):
             if s_[-1] != ('log',) or not any(a[0] == 'en' for a in s_):
                 continue
             scripts.append(s_)
+    # a module threshold that happens to equal the default of the moment is still the module's own: it does not follow the default afterwards
+    scripts.append((('en', 0), ('def', 0, 2), ('mod', 0, 'm', 2), ('log',), ('mod', 0, '', 4), ('log',), ('def', 0, 7), ('log',), ('unset', 0, 'm'), ('log',)))
+    scripts.append((('en', 1), ('mod', 1, 'n', 8), ('def', 1, 7), ('log',), ('def', 1, 1), ('log',)))
     scripts.append((('en', 0), ('en', 1), ('en', 2), ('log',), ('dis', 1), ('log',), ('en', 1), ('dis', 0), ('log',), ('en', 0), ('en', 0), ('log',), ('dis', 2), ('dis', 2), ('log',)))
     ctx.rule('C09.R14', 'A10 which sink sees which record, by abstract replay: %d scripts of up to %d steps (enable / disable of three sinks, global and per-module thresholds set, reset '
              'through the empty module name and unset, then records of all eight levels for three modules dispatched) run on the syntax trees of LogAddPrintfFunc, '
